@@ -138,6 +138,11 @@ pub assume_specification<T>[ <naga::UniqueArena<T> as core::ops::Index<naga::Han
 pub broadcast axiom fn axiom_uarena_index_req<T>(a: naga::UniqueArena<T>, h: naga::Handle<T>)
     ensures #[trigger] vstd::std_specs::core::IndexSpec::index_req(&a, &h) == (0 <= handle_index(h) < uarena_seq(&a).len());
 
+// naga's UniqueArena stores each distinct value exactly once
+pub axiom fn axiom_uarena_unique<T>(a: &naga::UniqueArena<T>, i: int, j: int)
+    requires 0 <= i < uarena_seq(a).len(), 0 <= j < uarena_seq(a).len(), uarena_seq(a)[i] == uarena_seq(a)[j],
+    ensures i == j;
+
 pub assume_specification<'a, T: Eq + core::hash::Hash>[ naga::UniqueArena::<T>::iter ](a: &'a naga::UniqueArena<T>) -> (r: impl DoubleEndedIterator<Item = (naga::Handle<T>, &'a T)>)
     ensures r.obeys_prophetic_iter_laws(), r.decrease() is Some,
             r.remaining().len() == uarena_seq(a).len(),
@@ -198,8 +203,36 @@ pub assume_specification[ naga::TypeInner::size ](t: &naga::TypeInner, c: naga::
 // ---------------- derived PartialEq of naga enums is structural equality ----------------
 pub assume_specification[ <naga::ShaderStage as PartialEq>::eq ](a: &naga::ShaderStage, b: &naga::ShaderStage) -> (r: bool)
     ensures r == (*a == *b);
+pub assume_specification[ <naga::ScalarKind as PartialEq>::eq ](a: &naga::ScalarKind, b: &naga::ScalarKind) -> (r: bool)
+    ensures r == (*a == *b);
 pub assume_specification[ <naga::AddressSpace as PartialEq>::eq ](a: &naga::AddressSpace, b: &naga::AddressSpace) -> (r: bool)
     ensures r == (*a == *b);
+
+// ---------------- naga::Literal::zero (transcribed from naga 24 proc/mod.rs Literal::new(0, scalar)) ----------------
+pub open spec fn lit_zero(s: naga::Scalar) -> Option<naga::Literal> {
+    match (s.kind, s.width) {
+        (naga::ScalarKind::Float, 8) => Some(naga::Literal::F64(0.0f64)),
+        (naga::ScalarKind::Float, 4) => Some(naga::Literal::F32(0.0f32)),
+        (naga::ScalarKind::Uint, 4) => Some(naga::Literal::U32(0u32)),
+        (naga::ScalarKind::Sint, 4) => Some(naga::Literal::I32(0i32)),
+        (naga::ScalarKind::Uint, 8) => Some(naga::Literal::U64(0u64)),
+        (naga::ScalarKind::Sint, 8) => Some(naga::Literal::I64(0i64)),
+        (naga::ScalarKind::Bool, 1) => Some(naga::Literal::Bool(false)),
+        _ => None,
+    }
+}
+pub assume_specification[ naga::Literal::zero ](s: naga::Scalar) -> (r: Option<naga::Literal>)
+    ensures r == lit_zero(s);
+
+// ---------------- NonZeroU32 (array lengths) ----------------
+// vstd declares NonZero::get without a postcondition, so the value cannot be named; the extracted code calls
+// `.shim_nz_get()` where /repo calls `.get()` on a NonZeroU32 (unit-wide mechanical rewrite)
+pub uninterp spec fn nonzero_get(n: core::num::NonZeroU32) -> u32;
+pub trait ShimNzGet { fn shim_nz_get(&self) -> (r: u32); }
+impl ShimNzGet for core::num::NonZeroU32 {
+    #[verifier::external_body]
+    fn shim_nz_get(&self) -> (r: u32) ensures r == nonzero_get(*self) { self.get() }
+}
 
 // ---------------- arrays ----------------
 pub assume_specification<T, const N: usize, F: FnMut(T) -> U, U>[ <[T; N]>::map ](a: [T; N], f: F) -> (r: [U; N])
